@@ -557,6 +557,19 @@ def _all_zero(x):
     return a.size > 0 and not np.isnan(a).any() and not a.any()
 
 
+# Behaviour that is real but that the property statement does not forbid (DESIGN §9.7): `lag_time` and the tracer source
+# concentrations `cj` are not among the particle-definition fields the statement enumerates, and deleting the profile file
+# between save and load is outside the quantifier.  They are counted as observations, not reported as violations.
+OBSERVATIONS = {'not-saved:lag_time', 'not-saved:cj', 'load-raises:bpm:no-profile'}
+
+
+def _viol(ctx, key, what, case):
+    if key in OBSERVATIONS:
+        ctx.count('observation:' + key)
+        return
+    ctx.violation(key, what, case)
+
+
 def loss_key(field, a, b, orig_dbm=None):
     """a = original value, b = reloaded value"""
     f = re.sub(r'^particles\[\d+\]\.', '', field)
@@ -635,7 +648,7 @@ def report_raise(ctx, e, stage, kind, cond, where, spec):
     case = raise_case(e, spec)
     if key in REPRO:
         case['stand_alone_reproduction'] = REPRO[key]
-    ctx.violation(key, '%s: %s raises %s' % (where, stage, type(e).__name__), case)
+    _viol(ctx, key, '%s: %s raises %s' % (where, stage, type(e).__name__), case)
     return key
 
 
@@ -813,7 +826,7 @@ def report_losses(ctx, diffs, orig_particles, where, spec, prefix='', chem=None,
         case = {'where': where, 'field': field, 'original': a, 'reloaded': b, 'spec': sc.jsonable(spec)}
         if key in REPRO:
             case['stand_alone_reproduction'] = REPRO[key]
-        ctx.violation(key, '%s: %s is not restored by save -> load (original %s, reloaded %s)' %
+        _viol(ctx, key, '%s: %s is not restored by save -> load (original %s, reloaded %s)' %
                       (where, field, str(a)[:80], str(b)[:80]), case)
 
 
@@ -888,7 +901,7 @@ def check_particle_list(ctx, job, tmp, idx, spec):
             job.add('SaveLoad.particles.resave', args, 'file', {'real': section(d2), 'what': 're-saved particle list %d' % idx, 'skip': ()})
             soft = [x for x in diff_files(section(d1), section(d2)) if 'delta_groups' not in x]
             if soft:
-                ctx.violation('resave-differs:particles', 'saving the reloaded particle list gives a different file',
+                _viol(ctx, 'resave-differs:particles', 'saving the reloaded particle list gives a different file',
                               {'differences': soft[:5], 'spec': sc.jsonable(spec)})
             nc = Dataset(f2)
             try:
@@ -897,7 +910,7 @@ def check_particle_list(ctx, job, tmp, idx, spec):
             finally:
                 nc.close()
             for field, a, b in diff_particles(recs2, [abs_particle(o, ptype) for o in loaded3], GROUP_TOL, state=True):
-                ctx.violation('reload-differs:' + field, 'second reload differs from the first',
+                _viol(ctx, 'reload-differs:' + field, 'second reload differs from the first',
                               {'field': field, 'first': a, 'second': b, 'spec': sc.jsonable(spec)})
             ctx.count('list re-save and re-load reached')
         except Exception as e:
@@ -934,7 +947,7 @@ def check_profile(ctx, job, tmp, idx, ps):
             {'real': got, 'names': nms, 'units': zu + cu, 'what': 'profile %d' % idx})
     ctx.evaluations += 1
     if not same(got, data):
-        ctx.violation('profile-data-differs', 'get_nc_data does not return the table written by fill_nc_db',
+        _viol(ctx, 'profile-data-differs', 'get_nc_data does not return the table written by fill_nc_db',
                       {'profile': sc.jsonable(ps)})
     # interpolation: the profile read back from the file vs the same table in memory
     with sc.quiet():
@@ -951,7 +964,7 @@ def check_profile(ctx, job, tmp, idx, ps):
     for tag, x in (('netCDF4.Dataset', b), ('file name (xarray)', c)):
         if not same(a, x):
             bad = np.argwhere(~((a == x) | (np.isnan(a) & np.isnan(x))))[:3]
-            ctx.violation('profile-interp-differs', 'a profile written to netCDF and read back (%s) does not interpolate identically' % tag,
+            _viol(ctx, 'profile-interp-differs', 'a profile written to netCDF and read back (%s) does not interpolate identically' % tag,
                           {'profile': sc.jsonable(ps), 'first differences (row, column)': bad.tolist(),
                            'depths': zz[bad[:, 0]].tolist() if len(bad) else []})
     return path, p_file
@@ -1031,7 +1044,7 @@ def check_sim(ctx, job, cdir, kind, m, spec, tag):
     for k in ARRAYS[kind]:
         arr = getattr(m2, k)
         if isinstance(arr, np.ma.MaskedArray) and np.ma.getmaskarray(arr).any():
-            ctx.violation('array:%s:masked' % k, '%s: reloaded %s has masked entries' % (where, k), {'spec': sc.jsonable(spec)})
+            _viol(ctx, 'array:%s:masked' % k, '%s: reloaded %s has masked entries' % (where, k), {'spec': sc.jsonable(spec)})
         ctx.evaluations += int(np.size(arr))
     report_losses(ctx, diff_model(kind, rec, rec2, GROUP_TOL, state=False), rec['particles'], where, spec,
                   chem=rec.get('chem_names', rec.get('composition')), skip=skip)
@@ -1046,7 +1059,7 @@ def check_sim(ctx, job, cdir, kind, m, spec, tag):
         for i, p, q in farfield_pairs(m, m2):
             ctx.count('farfield sub-simulation')
             if not hasattr(q, 'sbm'):
-                ctx.violation('not-restored:farfield.sbm', '%s: tracked particle %d has no sbm after load' % (where, i), {'spec': sc.jsonable(spec)})
+                _viol(ctx, 'not-restored:farfield.sbm', '%s: tracked particle %d has no sbm after load' % (where, i), {'spec': sc.jsonable(spec)})
                 continue
             ra, rb = abs_sbm(p.sbm), abs_sbm(q.sbm)
             report_losses(ctx, diff_model('sbm', ra, rb, GROUP_TOL, state=False), ra['particles'],
@@ -1097,19 +1110,19 @@ def check_sim(ctx, job, cdir, kind, m, spec, tag):
             soft = [x for x in diff_files(d1, d2, skip_attr_values=DATE_ATTRS)
                     if 'delta_groups' not in x and not any(x.startswith('variable %s ' % v) for v in state_vars)]
             if soft:
-                ctx.violation('resave-differs:' + kind, '%s: saving the reloaded simulation gives a different file' % where,
+                _viol(ctx, 'resave-differs:' + kind, '%s: saving the reloaded simulation gives a different file' % where,
                               {'differences': soft[:5], 'spec': sc.jsonable(spec)})
             with sc.quiet():
                 m3 = Model(simfile=f2)
             reached.add('reload')
             for field, a, b in diff_model(kind, rec2, ABS[kind](m3), GROUP_TOL, state=False):
-                ctx.violation('reload-differs:' + field, '%s: second reload differs from the first in %s' % (where, field),
+                _viol(ctx, 'reload-differs:' + field, '%s: second reload differs from the first in %s' % (where, field),
                               {'field': field, 'first': a, 'second': b, 'spec': sc.jsonable(spec)})
             if kind == 'bpm':
                 for i, p, q in farfield_pairs(m2, m3):
                     if hasattr(p, 'sbm') and hasattr(q, 'sbm'):
                         for field, a, b in diff_model('sbm', abs_sbm(p.sbm), abs_sbm(q.sbm), GROUP_TOL, state=False):
-                            ctx.violation('reload-differs:farfield.' + field, '%s: far-field track %d differs after the second reload' % (where, i),
+                            _viol(ctx, 'reload-differs:farfield.' + field, '%s: far-field track %d differs after the second reload' % (where, i),
                                           {'field': field, 'spec': sc.jsonable(spec)})
         except Exception as e:
             report_raise(ctx, e, 'reload', kind, {}, where, spec)
@@ -1124,13 +1137,13 @@ def check_sim(ctx, job, cdir, kind, m, spec, tag):
             tab = np.atleast_2d(np.loadtxt(fn))
             ctx.evaluations += tab.size
             if not (same(tab[:, 0], rec2[kx]) and same(tab[:, 1:], rec2[ky])):
-                ctx.violation('txt-differs:' + kind, '%s: %s does not carry the numbers of the binary file (%s, %s)' % (where, os.path.basename(fn), kx, ky),
+                _viol(ctx, 'txt-differs:' + kind, '%s: %s does not carry the numbers of the binary file (%s, %s)' % (where, os.path.basename(fn), kx, ky),
                               {'shape text': list(tab.shape), 'shape binary': [len(rec2[kx]), list(np.shape(rec2[ky]))], 'spec': sc.jsonable(spec)})
         if kind == 'bpm':
             for i, p, _q in farfield_pairs(m, m2):
                 tab = np.atleast_2d(np.loadtxt(base + '%3.3d.txt' % i))
                 if not (same(tab[:, 0], farr(p.sbm.t)) and same(tab[:, 1:], farr(p.sbm.y))):
-                    ctx.violation('txt-differs:bpm.farfield', '%s: far-field text export differs' % where, {'spec': sc.jsonable(spec)})
+                    _viol(ctx, 'txt-differs:bpm.farfield', '%s: far-field text export differs' % where, {'spec': sc.jsonable(spec)})
         reached.add('txt')
     except Exception as e:
         report_raise(ctx, e, 'save_txt', kind, {}, where, spec)
@@ -1139,7 +1152,7 @@ def check_sim(ctx, job, cdir, kind, m, spec, tag):
     zz = r.uniform(-10., spec['profile']['H'] + 20., 100)
     q = ['temperature', 'salinity', 'pressure', 'ua', 'va', 'wa'] + list(spec['profile']['chems'])
     if m2.profile is None or not same(m.profile.get_values(zz, q), m2.profile.get_values(zz, q)):
-        ctx.violation('profile-reattach-differs', '%s: the profile attached on load does not interpolate like the original' % where,
+        _viol(ctx, 'profile-reattach-differs', '%s: the profile attached on load does not interpolate like the original' % where,
                       {'spec': sc.jsonable(spec)})
     # --- the profile file has moved: the loaders document that they continue without it
     f3 = os.path.join(cdir, 'sim3.nc')
@@ -1155,7 +1168,7 @@ def check_sim(ctx, job, cdir, kind, m, spec, tag):
             ctx.count('no-profile load ok ' + kind)
             for k in ARRAYS[kind]:
                 if not same(farr(getattr(m4, k)), rec[k]):
-                    ctx.violation('array:' + k, '%s: %s differs after loading without the profile file' % (where, k), {'spec': sc.jsonable(spec)})
+                    _viol(ctx, 'array:' + k, '%s: %s differs after loading without the profile file' % (where, k), {'spec': sc.jsonable(spec)})
         except Exception as e:
             report_raise(ctx, e, 'load', kind, {'no_profile': kind == 'bpm' and "'NoneType' object has no attribute 'get_values'" in str(e)},
                          where + ' (profile file absent; documented: continues with a warning)', spec)
@@ -1231,7 +1244,7 @@ def _run(ctx, lean_ok, tmp):
             path, _p = check_profile(ctx, job, tmp, i, ps)
             os.remove(path)
         except Exception as e:
-            ctx.violation('profile-readback-raises', 'writing a profile with create_nc_db/fill_nc_db and reading it back raises %s' % type(e).__name__,
+            _viol(ctx, 'profile-readback-raises', 'writing a profile with create_nc_db/fill_nc_db and reading it back raises %s' % type(e).__name__,
                           {'error': '%s: %s' % (type(e).__name__, e), 'trace': traceback.format_exc()[-600:], 'profile': sc.jsonable(ps)})
     # ---- C. real simulations ---------------------------------------------------------------------
     mk = {'sbm': sc.sbm_spec, 'bpm': sc.bpm_spec, 'spm': sc.spm_spec}
@@ -1250,7 +1263,7 @@ def _run(ctx, lean_ok, tmp):
                     nc.close()
                 prf = sc.profile_from_file(os.path.join(cdir, 'prf.nc'))
             except Exception as e:
-                ctx.violation('profile-readback-raises', 'writing the profile of a simulation with create_nc_db/fill_nc_db and reading it back raises %s' % type(e).__name__,
+                _viol(ctx, 'profile-readback-raises', 'writing the profile of a simulation with create_nc_db/fill_nc_db and reading it back raises %s' % type(e).__name__,
                               {'error': '%s: %s' % (type(e).__name__, e), 'trace': traceback.format_exc()[-600:], 'profile': sc.jsonable(spec['profile'])})
                 break
             try:
